@@ -81,6 +81,20 @@ def install_contracts():
         cls.times = icontract.ensure(times_commutes, error=ContractBroken)(cls.times)
 
 
+_TIER = {}
+
+
+def prepare(scratch, env, tier):
+    _TIER["tier"] = tier
+
+
+def collect(scratch, recs, counters):
+    # thorough tier: the repository's own 273 tests run once more with these contracts switched on
+    if _TIER.get("tier") == "thorough":
+        from .. import suite
+        suite.run_suite("c12", scratch, recs, counters)
+
+
 def setup_worker(tier):
     install_contracts()
 
